@@ -1,0 +1,11 @@
+//go:build verif
+
+package keys
+
+// VerifPurgeKeyCache empties the process-wide cache of decoded public keys.
+// The verification harness runs many simulated nodes in one process; purging
+// the cache stands for a node whose process has just been started (or whose
+// cache has evicted everything), which must not change any result.
+func VerifPurgeKeyCache() {
+	keycache.Purge()
+}
